@@ -482,10 +482,12 @@ fn families(thorough: bool) -> Vec<(&'static str, String, Vec<u8>)> {
     }
     // many occurrences of structural keywords (searches that recurse or rescan per occurrence)
     for n in [100usize, 10_000, 100_000, 1_000_000] {
-        if n > 100_000 && !thorough {
-            continue;
-        }
         for kw in [&b"%%EOF\n"[..], b"startxref\n0\n%%EOF\n", b"endstream\n", b"endobj\n", b"xref\n", b"trailer\n<<>>\n", b"stream\n", b"obj\n", b"%PDF-1.4\n"] {
+            // a million occurrences: only the end-of-file markers in quick, every keyword in thorough
+            let eof_marker = kw.starts_with(b"%%EOF") || kw.starts_with(b"startxref");
+            if n > 100_000 && !eof_marker && !(thorough && (kw.starts_with(b"endstream") || kw.starts_with(b"endobj"))) {
+                continue;
+            }
             let body: Vec<u8> = kw.iter().cloned().cycle().take(kw.len() * n).collect();
             // as stream data inside a valid file, and as trailing / leading garbage
             let mut obj = format!("<</Length {}>>stream\n", body.len()).into_bytes();
@@ -503,6 +505,9 @@ fn families(thorough: bool) -> Vec<(&'static str, String, Vec<u8>)> {
         }
         // content streams and CMaps made of one repeated token
         for tok in [&b"q "[..], b"BT ", b"BI ", b"( ", b"<< ", b"/N ", b"1 ", b"% c\n", b"ID ", b"EI "] {
+            if n > 100_000 && !thorough {
+                continue;
+            }
             let body: Vec<u8> = tok.iter().cloned().cycle().take(tok.len() * n).collect();
             v.push(("content", format!("{} x {:?}", n, String::from_utf8_lossy(tok)), body));
         }
@@ -808,14 +813,21 @@ fn main() {
     let args: Vec<String> = std::env::args().collect();
     if args.iter().any(|a| a == "--worker") {
         let _ = rayon::ThreadPoolBuilder::new().num_threads(2).stack_size(8 << 20).build_global();
-        worker::serve(exec);
+        let th = args.iter().any(|a| a == "--thorough-families");
+        worker::serve_with_init(
+            move || {
+                SEEDS.with(|c| *c.borrow_mut() = Some(seeds()));
+                FAMILIES.with(|c| *c.borrow_mut() = Some(families(th)));
+            },
+            exec,
+        );
     }
     let run = Run::from_args("C04", "exploration");
     util::quiet_panics();
     if let Mode::Replay(path) = run.mode.clone() {
         let c = vharness::run::read_replay(&path);
         let desc = if c["truncated"].as_bool() == Some(true) { c["descriptor"].clone() } else { json!({"e": c["entry"], "hex": c["hex"]}) };
-        let case = Case { id: 0, entry: "x", input: case_input(&desc) };
+        let case = Case { id: 0, entry: "x", input: case_input(&desc), logical_len: 0 };
         let o1 = worker::run_single(&case, &[]);
         let o2 = worker::run_single(&case, &[]);
         println!("observed: {:?} {} | second run {:?}", o1.class, o1.detail, o2.class);
@@ -846,7 +858,7 @@ fn main() {
             dup += 1;
             return;
         }
-        cases.push(Case { id: cases.len() as u64, entry: "x", input: case_input(&desc) });
+        cases.push(Case { id: cases.len() as u64, entry: "x", input: case_input(&desc), logical_len: bytes.len().max(1) });
         meta.push(desc);
     };
     for (si, s) in sd.iter().enumerate() {
@@ -889,7 +901,8 @@ fn main() {
     let outcomes: Mutex<BTreeMap<String, u64>> = Mutex::new(BTreeMap::new());
     let failures: Mutex<Vec<(u64, Outcome)>> = Mutex::new(vec![]);
     let n_workers = std::thread::available_parallelism().map(|n| n.get()).unwrap_or(8);
-    worker::run_cases(cases, n_workers, &[], &|c, o| {
+    let wargs: Vec<String> = if run.thorough { vec!["--thorough-families".to_string()] } else { vec![] };
+    worker::run_cases(cases, n_workers, &wargs, &|c, o| {
         run.eval(1);
         let trivial = o.class == Class::Returned && (o.detail.starts_with("trivial") || o.detail.contains("invalid file header") || o.detail.contains("invalid start value"));
         if !trivial {
@@ -908,10 +921,10 @@ fn main() {
     for (cid, o) in fl {
         let desc = &meta[cid as usize];
         let (entry, bytes) = materialise(desc);
-        let again = worker::run_single(&Case { id: 0, entry: "x", input: case_input(desc) }, &[]);
+        let again = worker::run_single(&Case { id: 0, entry: "x", input: case_input(desc), logical_len: bytes.len().max(1) }, &wargs);
         if again.class != o.class {
             // timing-dependent outcomes (e.g. a hang that finishes just in time) are retried once more
-            let third = worker::run_single(&Case { id: 0, entry: "x", input: case_input(desc) }, &[]);
+            let third = worker::run_single(&Case { id: 0, entry: "x", input: case_input(desc), logical_len: bytes.len().max(1) }, &wargs);
             if third.class != o.class && third.class == Class::Returned {
                 run.add("unconfirmed_failures", 1);
                 continue;
